@@ -435,6 +435,10 @@ Proof.
       unfold tc_aligned, tc_times in X. rewrite (tl_get_some _ _ _ Hts) in X. exact X.
     + rewrite T2. reflexivity.
     + rewrite T6. reflexivity.
+  - (* extend_self *) unfold exec_extend_self. dm; simpl; auto.
+    match goal with |- context [extend_locs ?h ?c ?l ?cp ?f] =>
+      destruct (extend_locs_times h c l cp f) as (X1 & X2 & X3 & X4) end.
+    apply (Aligned_same h); auto.
 Qed.
 
 (* times and members stay aligned, and no times list is shared, under EVERY operation sequence *)
